@@ -96,7 +96,7 @@ def run_ext(ctx):
                     ctx.spec_drift.append({"part": PART, "informational": w, "event": small(e)})
         for w in judged:
             clean = False
-            ctx.violation(signature(e, w), {"what": "abstract predicate %s false for a %s answer of the real RPC server (%s)" % (
+            violation(ctx, signature(e, w), {"what": "abstract predicate %s false for a %s answer of the real RPC server (%s)" % (
                 w, e["event"], e.get("srv")), "event": small(e), "ctx": f.get("ctx")})
     ctx.extra["rpc_informational_failures"] = info
     ctx.extra["rpc_clean"] = clean
@@ -111,12 +111,27 @@ def run_ext(ctx):
     selftest(ctx, worlds, set(id(e) for _, e in fails))
 
 
+def violation(ctx, sig, detail):
+    """ctx.violation, except that a stand-alone run of the extension (property id C03_RPC) honours the known findings listed
+    for the properties the extension belongs to (C03; C07 for the fee clause) the way the registered check does."""
+    if ctx.pid not in ("C03", "C07"):
+        for kf in ctx.known.get("findings", []):
+            if kf.get("property") in ("C03", "C07") and vlib.sig_match(kf.get("signature", {}), sig):
+                if kf not in ctx.known_hits:
+                    ctx.known_hits.append(kf)
+                    print("KNOWN-FINDING: property=%s %s" % (kf.get("property"), kf.get("what", json.dumps(kf.get("signature")))), flush=True)
+                return
+    ctx.violation(sig, detail)
+
+
 def small(e):
     return {k: v for k, v in e.items() if k not in ("flat", "live")}
 
 
 def signature(e, pred):
     sig = {"part": PART, "kind": KIND.get(e["event"], e["event"]), "pred": pred, "via": e.get("via"), "cfg": e.get("cfg")}
+    if e.get("cfg") == "window" and e.get("ret"):
+        sig["cfg"] = "window-retained"   # inside the window the node owes the same answers as an archival one
     if e["event"] == "malformed":
         sig["kind"] = METHOD_KIND.get(e.get("method"), e.get("method"))
         sig["class"] = e.get("class")
